@@ -7,6 +7,7 @@ package c14
 import (
 	"fmt"
 	"hash/fnv"
+	"math/big"
 	"reflect"
 
 	"verif/engine"
@@ -32,12 +33,12 @@ func (Prop) SelfTest() error {
 	// the hash chain and the edge scalars must lie in the valid ranges the checks assume
 	n := sm2N()
 	for _, s := range sm2Scalars() {
-		if s.d.Sign() <= 0 || s.d.Cmp(new(bigInt).Sub(n, bigTwo)) > 0 {
+		if s.d.Sign() <= 0 || s.d.Cmp(new(big.Int).Sub(n, big.NewInt(2))) > 0 {
 			return fmt.Errorf("c14: sm2 scalar %s outside [1,n-2]", s.name)
 		}
 	}
 	for _, s := range sm9Scalars() {
-		if s.d.Sign() <= 0 || s.d.Cmp(new(bigInt).Sub(sm9N, bigTwo)) > 0 {
+		if s.d.Sign() <= 0 || s.d.Cmp(new(big.Int).Sub(sm9N, big.NewInt(2))) > 0 {
 			return fmt.Errorf("c14: sm9 scalar %s outside [1,N-2]", s.name)
 		}
 	}
@@ -109,7 +110,17 @@ func errClass(err error) string {
 
 func (Prop) Run(c *engine.Ctx) {
 	quick := c.Quick()
-	ks, err := allKeys()
+	var ks []*key
+	var err error
+	func() {
+		// a panic while the library builds or marshals a key of the alphabet is a finding, not a harness error
+		defer func() {
+			if r := recover(); r != nil {
+				err = fmt.Errorf("panic: %v", r)
+			}
+		}()
+		ks, err = allKeys()
+	}()
 	if err != nil {
 		c.Case("setup/keys", func(t *engine.T) {
 			t.Eval(1)
